@@ -287,6 +287,8 @@ func reproduced(v Violation, r NativeResult) bool {
 		return r.Kind == "timeout" || r.Kind == "panic" || r.Kind == "fatal"
 	case "alloc":
 		return r.Kind == "panic" || r.Kind == "timeout" || r.Kind == "missing"
+	case "deadlock":
+		return r.Kind == "timeout"
 	case "sharedwrite", "foreignwrite":
 		// a property of the path itself: confirmed when the path is natively feasible
 		return r.Kind == "ok"
